@@ -58,6 +58,7 @@ type scenario struct {
 	idle    bool // restart twice without traffic after a crash
 	cluster bool
 	stall   int  // cluster: the transaction of this unit (0-based, 0 = none) is held back ~130 ms before the target sees its first command
+	filter  bool // a key filter is configured (prefix black list "drop:"): multi-key commands are forwarded restricted to the accepted keys
 	nostart bool // skip the start-up recovery (16384 slot reads on a cluster): C18 cases only judge admission
 }
 
@@ -184,8 +185,11 @@ func noopScript(s *fakeredis.Server, db int, script string, keys [][]byte, argv 
 // refuse kinds of C18: what makes a unit unroutable on a cluster target
 var refuseKinds = []string{"txn2slots", "mset2slots", "del2slots", "emptytag", "lastbrace", "unknowncmd", "nestedbrace", "eval2slots"}
 
+// filterOn: generated scenarios configure a key filter and mix accepted and rejected keys in DEL / UNLINK / MSET
+var filterOn bool
+
 func genScenario(r *hx.Rng, id int, maxUnits int, cluster bool, refuse string) *scenario {
-	sc := &scenario{id: id, start: int64(500 + r.Intn(5000)), mode: []string{"sync", "pipeline", "parallel"}[r.Intn(3)], cluster: cluster}
+	sc := &scenario{filter: filterOn, id: id, start: int64(500 + r.Intn(5000)), mode: []string{"sync", "pipeline", "parallel"}[r.Intn(3)], cluster: cluster}
 	off := sc.start
 	add := func(args ...[]byte) {
 		b := hx.EncodeCmd(args...)
@@ -223,6 +227,37 @@ func genScenario(r *hx.Rng, id int, maxUnits int, cluster bool, refuse string) *
 			}
 			val := append([]byte(fmt.Sprintf("v%d.%d:", u, c)), r.Bytes(r.Intn(8))...)
 			var cm cmd
+			if sc.filter && r.Chance(60) {
+				// accepted and rejected keys in one command: the target must see the command restricted to the accepted keys
+				// (the stream carries the whole command, the unit records what is owed to the target)
+				k2 := []byte(fmt.Sprintf("k2:%d:%d", u, c))
+				if cluster {
+					k2 = keyForm(r, tag, fmt.Sprintf("b%d:%d", u, c))
+				}
+				d1, d2 := []byte(fmt.Sprintf("drop:%d:%d", u, c)), []byte(fmt.Sprintf("drop:x%d:%d", u, c))
+				var full, proj cmd
+				switch r.Intn(4) {
+				case 0:
+					full = cmd{"del", [][]byte{key, d1, k2}}
+					proj = cmd{"del", [][]byte{key, k2}}
+				case 1:
+					full = cmd{"unlink", [][]byte{d1, key, d2}}
+					proj = cmd{"unlink", [][]byte{key}}
+				case 2:
+					full = cmd{"mset", [][]byte{key, val, d1, []byte("dv"), k2, val}}
+					proj = cmd{"mset", [][]byte{key, val, k2, val}}
+				default:
+					full = cmd{"del", [][]byte{d1, k2}}
+					proj = cmd{"del", [][]byte{k2}}
+				}
+				un.Cmds = append(un.Cmds, proj)
+				add(append([][]byte{[]byte(full.name)}, full.args...)...)
+				if un.Txn && r.Chance(30) {
+					// a command that touches rejected keys only is withheld entirely
+					add([]byte("set"), d2, []byte("x"))
+				}
+				continue
+			}
 			switch r.Intn(7) {
 			case 5:
 				// a command whose key positions depend on its content: one key, and an argument that only looks like a
@@ -422,8 +457,16 @@ func (rn *runner) newOutput() *syncer.RedisOutput {
 		Redis: rn.redisCfg(), EnableResumeFromBreakPoint: true, TargetDb: -1,
 		BatchCmdCount: 4, BatchTicker: time.Hour, BatchBufferSize: 1 << 30, KeepaliveTicker: time.Hour, UpdateCheckpointTicker: time.Hour,
 		ReplayMode: mode, Parallelism: 3, ReplayRdbParallel: 1, KeyExists: "replace",
-		Stats: config.OutputStats{DisableLog: true},
+		Stats:  config.OutputStats{DisableLog: true},
+		Filter: rn.filterCfg(),
 	})
+}
+
+func (rn *runner) filterCfg() config.FilterConfig {
+	if !rn.sc.filter {
+		return config.FilterConfig{}
+	}
+	return config.FilterConfig{KeyFilter: &config.FilterKeyConfig{PrefixKeyBlacklist: []string{"drop:"}}}
 }
 
 func field(args [][]byte, name string) (string, bool) {
@@ -742,7 +785,7 @@ func runScenario(sc *scenario, tr *hx.Trace) (recv int, reqs int) {
 	for _, u := range sc.units {
 		us = append(us, map[string]interface{}{"s": u.S, "e": u.E, "n": len(u.Cmds), "txn": u.Txn, "ok": u.Ok})
 	}
-	tr.Emit(map[string]interface{}{"ev": "Reset", "id": sc.id, "mode": sc.mode, "start": sc.start, "units": us, "cluster": sc.cluster})
+	tr.Emit(map[string]interface{}{"ev": "Reset", "id": sc.id, "mode": sc.mode, "start": sc.start, "units": us, "cluster": sc.cluster, "filter": sc.filter})
 	cli, err := client.NewRedis(rn.redisCfg())
 	if err != nil {
 		hx.Fatal("%v", err)
@@ -791,6 +834,7 @@ func main() {
 	cluster := flag.Bool("cluster", false, "two-node cluster target")
 	cases := flag.String("cases", "", "units enumerated by spec/UnitRoute.tla (CASE lines): one scenario per unit, cluster target")
 	refuse := flag.Bool("refuse", false, "append an unroutable unit to every scenario (cluster only, no crashes)")
+	flag.BoolVar(&filterOn, "filter", false, "configure a key filter; DEL / UNLINK / MSET mix accepted and rejected keys")
 	flag.Parse()
 	hx.QuietLogs()
 	tr, err := hx.NewTrace(*out)
